@@ -419,6 +419,7 @@ func (t *Term) decMode(mode int, set bool) {
 			if !t.Alt {
 				t.cur = t.alt
 				t.Alt = true
+				t.KittyStack, t.kittyOther = t.kittyOther, t.KittyStack
 			}
 			if mode == 1049 {
 				for r := range t.cur.cells {
@@ -429,6 +430,7 @@ func (t *Term) decMode(mode int, set bool) {
 			if t.Alt {
 				t.cur = t.primary
 				t.Alt = false
+				t.KittyStack, t.kittyOther = t.kittyOther, t.KittyStack
 			}
 			if mode == 1049 {
 				s := t.primary.saved
